@@ -29,6 +29,8 @@ var mgmt struct {
 	// fault404: "pools" / "bucket" = answer that REST lookup with 404 and a plain-text body (ns_server's reply
 	// for an unknown resource)
 	fault404 string
+	// metaStorage: storage back end reported for the bucket "meta" (a separate metadata bucket), "" = like the source
+	metaStorage string
 }
 
 func mgmtURL() string {
@@ -54,7 +56,11 @@ func mgmtURL() string {
 				http.Error(w, "Requested resource not found.", http.StatusNotFound)
 				return
 			}
-			fmt.Fprintf(w, `{"bucketType":%q,"storageBackend":%q}`, mgmt.btype, mgmt.storage)
+			st := mgmt.storage
+			if strings.HasSuffix(strings.TrimSuffix(r.URL.Path, "/"), "/meta") && mgmt.metaStorage != "" {
+				st = mgmt.metaStorage
+			}
+			fmt.Fprintf(w, `{"bucketType":%q,"storageBackend":%q}`, mgmt.btype, st)
 		})
 		go func() { _ = http.Serve(ln, mux) }()
 		mgmt.url = "http://" + ln.Addr().String()
@@ -69,11 +75,15 @@ func setMgmt(version, btype, storage string) {
 	}
 	mgmt.version, mgmt.btype, mgmt.storage = version, btype, storage
 	mgmt.fault404 = mgmtFault
+	mgmt.metaStorage = mgmtMetaStorage
 	mgmt.mu.Unlock()
 }
 
 // mgmtFault is picked up by the next NewDcpEnv (and reset by resetGlobals)
 var mgmtFault string
+
+// mgmtMetaStorage: see mgmt.metaStorage (picked up by the next NewDcpEnv, reset by resetGlobals)
+var mgmtMetaStorage string
 
 // DcpEnv is the lifecycle harness: the real newDcp -> Start()/Close() over the simulated cluster.
 type DcpEnv struct {
